@@ -4,8 +4,10 @@ from . import passes
 PROP = 'C19'
 CONFIGS = {
     'quick': [('nestings', ('H_T', 'M_E0', 'T_T', 'O_T', 4, 4), 6000),
+              ('loops-in-par', ('H_T', 'M_E0', 'T_TL', 'O_TL', 5, 5), 4000),
               ('nestings-deep', ('H_T', 'M_E0', 'T_T', 'O_TD', 8, 4), 6000, (1500, 40))],
     'thorough': [('nestings', ('H_T', 'M_E0', 'T_T', 'O_T', 6, 5), 150000),
+                 ('loops-in-par', ('H_T', 'M_E0', 'T_TL', 'O_TL', 7, 6), 100000),
                  ('nestings-deep', ('H_T', 'M_E0', 'T_T', 'O_TD', 10, 5), 100000, (30000, 60))],
 }
 OWNED = {'error_type', 'loop_in_par_rejected', 'accepted', 'flat', 'schedule', 'sub_annotations', 'header_carried', 'imports_carried'}
@@ -20,9 +22,16 @@ def nontrivial(prog):
     return "'par': True" in r and r.count("'k': 'blk'") >= 2
 
 
+def stratum(line):
+    """programs with a loop AND a parallel block (the only ones the loop-in-parallel rule can speak about) get half of the
+    budget; the test is on TLC's own JSON line"""
+    return '\\"k\\":\\"loop\\"' in line and '\\"par\\":true' in line
+
+
 def main(tier):
     return passes.run_property(
         PROP, tier, CONFIGS, lambda p, rng: [('unit_timing', [])], owned, nontrivial,
         'complete programs of the AstEnum machine with alternating sequential / parallel nesting to depth 4, unequal '
         'branch lengths, empty blocks, subcircuit blocks and loops (also inside parallel blocks: must be rejected); '
-        'non-trivial = distinct programs with a parallel block and at least one more block')
+        'non-trivial = distinct programs with a parallel block and at least one more block',
+        strata=(stratum, {True: 0.5, False: 0.5}))
